@@ -64,6 +64,7 @@ func raceSignatures(text, target string) (sigs []string, details []string, machi
 		// split into the stacks of the two accesses
 		parts := regexp.MustCompile(`(?m)^(Previous )?(Read|Write|Atomic read|Atomic write|read|write)[^\n]* by [^\n]*:\n`).Split(rep, -1)
 		var tops []string
+		harnessSide := 0
 		for _, st := range parts[1:] {
 			if j := strings.Index(st, "\n\n"); j >= 0 {
 				st = st[:j]
@@ -75,15 +76,18 @@ func raceSignatures(text, target string) (sigs []string, details []string, machi
 				if strings.HasPrefix(fn, "runtime.") {
 					continue
 				}
+				inHarness := strings.Contains(fn, "verif.local/simrt") || strings.Contains(fn, "/zzverif/")
 				if firstNonRuntime {
 					firstNonRuntime = false
-					if strings.Contains(fn, "verif.local/simrt") || strings.Contains(fn, "/zzverif/") {
-						// the access itself happened in simulator or harness code
-						top = ""
+					if inHarness {
+						// the access itself happened in simulator or harness code: the harness
+						// only ever touches memory a caller may touch (its own inputs, its Patch)
+						top = "caller-side-access"
+						harnessSide++
 						break
 					}
 				}
-				if strings.Contains(fn, "verif.local/simrt") || strings.Contains(fn, "/zzverif/") {
+				if inHarness {
 					break // reached the harness: keep what we have
 				}
 				if !strings.Contains(fn, "github.com/evanphx/json-patch") {
@@ -108,8 +112,8 @@ func raceSignatures(text, target string) (sigs []string, details []string, machi
 				break
 			}
 		}
-		if len(tops) < 2 {
-			// at least one of the two accesses is in simulator/harness code
+		if len(tops) < 2 || harnessSide == 2 {
+			// both accesses are in simulator/harness code (or the report could not be parsed)
 			machinery = append(machinery, rep)
 			continue
 		}
